@@ -240,7 +240,8 @@ class BatUnit(corr.Unit):
                 if o["mp"] is not None:
                     lim = min(lim, o["mp"])
                 if avg > lim * (1 + F(1, 10**9)) + eps:
-                    v.append(("C01/power-limit-negative-soc" if s0 < 0 else "C01/power-limit",
+                    near = any(abs(s0 - x) < eps for x, _ in lc)
+                    v.append(("C01/power-limit-negative-soc" if s0 < 0 else "C01/power-limit/eps-breakpoint" if near else "C01/power-limit",
                               "%s: avg %s exceeds limit/curve %s" % (desc, float(avg), float(lim))))
             else:
                 tgt = o["ts"] if o["ts"] is not None else (s0 - o["tp"] / eff * T / cap if o["tp"] is not None else F(0))
@@ -257,7 +258,9 @@ class BatUnit(corr.Unit):
                 if o["mp"] is not None:
                     lim = min(lim, o["mp"])
                 if avg > lim * (1 + F(1, 10**9)) + eps:
-                    v.append(("C01/power-limit", "%s: avg %s exceeds limit/curve %s" % (desc, float(avg), float(lim))))
+                    near = any(abs(s0 - x) < eps for x, _ in uc)
+                    v.append(("C01/power-limit/eps-breakpoint" if near else "C01/power-limit",
+                              "%s: avg %s exceeds limit/curve %s" % (desc, float(avg), float(lim))))
         return v[:3]
 
 
@@ -272,12 +275,46 @@ RULE = ("random call sequences (1-5 of load/unload/get_available_power) on one b
         "sequence in which energy moved, exp/ln was used or an error path was taken")
 
 
+def float_unlimited(rep, tier, sd):
+    """the 'unlimited' stationary battery (capacity -1 -> 2^64 kWh) in plain floats: a SoC change of power*T/2^64 is
+    absorbed by any SoC that is not tiny, the code's own assertion 'energy_delta > 0' then fails (float-level finding,
+    outside the exact-arithmetic model)"""
+    import datetime
+    import random
+    C.setup_repo_path()
+    from spice_ev.components import StationaryBattery
+    rng = random.Random("c01/unl/%d" % sd)
+    n = 0
+    for _ in range(20 if tier == "quick" else 200):
+        soc = rng.choice([0.0, 0.0, 1e-12, 0.25, 0.5, 0.9, 1.0])
+        p = rng.choice([1, 10, 50, 1000])
+        b = StationaryBattery({"parent": "GC1", "capacity": -1, "charging_curve": [[0, p], [1, p]], "soc": soc})
+        for op in ("load", "unload"):
+            n += 1
+            try:
+                r = getattr(b, op)(datetime.timedelta(minutes=rng.choice([1, 15, 60])), max_power=rng.choice([p, p / 2]))
+                if r["avg_power"] < 0 or not (0 <= b.soc <= 1):
+                    rep.add_violation("C01/unlimited-float", "unlimited battery soc=%r %s -> avg %r soc %r" % (soc, op, r["avg_power"], b.soc),
+                                      {"unit": "unlimited-float", "case": {"soc": soc, "p": p, "op": op}})
+            except Exception as e:  # noqa
+                rep.add_violation("C01/unlimited-float-absorption", "unlimited battery (capacity -1) at SoC %r: %s(max_power=%s) raised %s"
+                                  % (soc, op, p, type(e).__name__), {"unit": "unlimited-float", "case": {"soc": soc, "p": p, "op": op}})
+    rep.cov["evaluations"] += n
+    rep.notes["unlimited_float_calls"] = n
+
+
 def run(tier):
-    return corr.standard_run("C01", tier, [UNIT], 400, 6000, TRUSTED, RULE)
+    return corr.standard_run("C01", tier, [UNIT], 400, 6000, TRUSTED, RULE, extra=float_unlimited)
 
 
 def replay(payload):
     case = payload["input"]["case"]
+    if payload["input"].get("unit") == "unlimited-float":
+        rep = C.Report("C01", "quick")
+        float_unlimited(rep, "quick", C.seed())
+        for v in rep.violations:
+            print("VIOLATION-REPLAY %s: %s" % (v["cls"], v["what"]))
+        return 1 if rep.violations else 0
     out = UNIT.run_impl(case)
     v = UNIT.check_property(case, out)
     for cls, what in v:
